@@ -168,6 +168,10 @@ pub fn record_c11(rec: &mut Recorder, seed: u64, thorough: bool) {
                 let (n_, ex) = num(dist.pvalue(s4 as f32 / G as f32), dn);
                 json!([s4, n_, if ex { 1 } else { 0 }])
             }).collect();
+            // scores no table index can represent (the scaled score leaves the 32-bit range, or is infinite): p = 0 far
+            // above the maximum, the whole mass far below the minimum
+            let far: Vec<Value> = [(1i64, 3.0e7f32), (1, 1.0e9), (1, f32::MAX), (1, f32::INFINITY), (-1, -3.0e7), (-1, -1.0e9), (-1, f32::MIN), (-1, f32::NEG_INFINITY)]
+                .iter().map(|&(sg, x)| { let (n_, ex) = num(dist.pvalue(x), dn); json!([sg, n_, if ex { 1 } else { 0 }]) }).collect();
             // p-value -> score -> p-value round trip
             let mut inv = Vec::new();
             let fits = dn * 1000.0 < 2.0e9; // the spec cross-multiplies numerators with pd in 32-bit integers
@@ -176,7 +180,7 @@ pub fn record_c11(rec: &mut Recorder, seed: u64, thorough: bool) {
                 let (n2, _) = num(dist.pvalue(t), dn);
                 if fits { inv.push(json!([pn, pd, n2])); }
             }
-            json!({"sf_len": sf.len(), "sf_mono": mono, "sf_inrange": inrange, "pv": pv, "inv": inv})
+            json!({"sf_len": sf.len(), "sf_mono": mono, "sf_inrange": inrange, "pv": pv, "inv": inv, "far": far})
         });
         rec.reset();
         rec.class(&format!("M{}", m.min(7)));
